@@ -36,7 +36,7 @@ func render(m *mirror, st *Step) rendered {
 	if st.T < 0 || st.T >= len(m.vars) {
 		return bad("invalid_step")
 	}
-	if st.Fld != "" && m.kinds[st.T] != "st" {
+	if st.Fld != "" && !isStructKind(m.kinds[st.T]) {
 		return bad("invalid_step")
 	}
 	t := m.target(st.T, st.Fld)
@@ -58,7 +58,7 @@ func render(m *mirror, st *Step) rendered {
 		if st.W < 0 || st.W >= len(m.vars) {
 			return nil, "invalid_step"
 		}
-		if m.kinds[st.W] == "st" || m.vars[st.W].Type() != t.v.Type() {
+		if isStructKind(m.kinds[st.W]) || m.vars[st.W].Type() != t.v.Type() {
 			return nil, "dest_kind_mismatch"
 		}
 		d := m.target(st.W, "")
@@ -112,7 +112,7 @@ func render(m *mirror, st *Step) rendered {
 		var rhs *target
 		var rsrc string
 		if st.R != nil {
-			if *st.R < 0 || *st.R >= len(m.vars) || m.kinds[*st.R] == "st" {
+			if *st.R < 0 || *st.R >= len(m.vars) || isStructKind(m.kinds[*st.R]) {
 				return bad("invalid_step")
 			}
 			rt := m.target(*st.R, "")
@@ -264,7 +264,7 @@ func render(m *mirror, st *Step) rendered {
 			r.src = "fset(" + t.src + ", " + s + ", " + st.V.src() + ")"
 		case "app":
 			if st.R != nil {
-				if *st.R < 0 || *st.R >= len(m.vars) || m.kinds[*st.R] == "st" {
+				if *st.R < 0 || *st.R >= len(m.vars) || isStructKind(m.kinds[*st.R]) {
 					return bad("invalid_step")
 				}
 				rt := m.target(*st.R, "")
